@@ -30,7 +30,7 @@ MISSED_FIRST.update(json.load(open('/verif/tools/missed_first_r3.json')) if os.p
 FRAGILE = {"C01-r2-1", "C12-r2-1"}
 FRAGILE |= set(json.load(open('/verif/tools/fragile_r3.json'))) if os.path.exists('/verif/tools/fragile_r3.json') else set()
 conf = {}
-for l in open('/tmp/confirm/results.txt'):
+for l in open('/tmp/confirm/results.txt' if os.path.exists('/tmp/confirm/results.txt') else '/verif/tools/seed_confirmations.txt'):
     conf[l.split()[0]] = l.strip()
 matrix = {}
 for l in open(MATRIX):
